@@ -7,7 +7,8 @@
 From Coq Require Import NArith List Bool Arith Lia.
 From Verif Require Import Scope.PySyntax Scope.Finder Scope.PySem Scope.Fragment Scope.AuxProofs Scope.FinderProofs
                           Scope.UnusedProofs Scope.Stage2Base Scope.Stage2Inv Scope.Stage2Steps Scope.Stage2Proofs
-                          Scope.Stage2Stmt Scope.Stage2Final Scope.Stage2Erase.
+                          Scope.Stage2Stmt Scope.Stage2Final Scope.Stage2Erase
+                          Scope.Stage3Comp Scope.Stage3Proofs Scope.Stage3Stmt Scope.Stage3Erase.
 Import ListNotations.
 
 (* ---------- checker lists that differ by marks only ---------- *)
@@ -494,7 +495,8 @@ Lemma defer_u_gen : forall T BS I0 exp l l' L'' accs acc ex s tr x a Mdyn Lf lm 
   top (stack_of (l :: l' :: L'') ++ Ks) = tp -> tp <> T -> In tp (stack_of (l :: l' :: L'') ++ Ks) ->
   (forall j, In j Ks -> j < next_id s) ->
   (forall li ii, r = Bound (BImp li ii) ->
-     lookup_b x (rev BS ++ others I0) = Some (BImp li ii) /\ (forall i, In i (stack_of Lf ++ Ks) -> ~ In x (exp i)) /\ ~ In x (l_P lm)) ->
+     lookup_b x (rev BS ++ others I0) = Some (BImp li ii) /\ (forall j, In j (stack_of Lf ++ Ks) -> has (er s) j x = false) /\
+     (forall i, In i (removelast (stack_of Lf ++ Ks)) -> ~ In x (exp i)) /\ ~ In x (l_P lm)) ->
   ext (next_id s) exp exp' ->
   StI exp' (l :: l' :: L'') (acc :: accs) ex (er (defer_load s (stack_of (l :: l' :: L'') ++ Ks) (x :: a))) ->
   UI T BS I0 exp' (defer_load s (stack_of (l :: l' :: L'') ++ Ks) (x :: a)) Mdyn (tr ++ [(lineno s, x, r)]).
@@ -522,10 +524,8 @@ Proof.
     apply UI_add_read.
     + eapply UI_ext; [exact Hext| |eapply UI_marks; [exact HM|exact HU]].
       destruct HM as (cs' & -> & _). exact Hdef.
-    + intros li ii Hr. left. destruct (Himp li ii Hr) as (R1 & R2 & R3).
+    + intros li ii Hr. left. destruct (Himp li ii Hr) as (R1 & Hfn & _ & R3).
       (* not in a function scope, not in the initial namespaces: in the module's top scope, as a checker *)
-      assert (Hfn : forall j, In j (stack_of Lf ++ Ks) -> has (er s) j x = false).
-      { intros j Hj. destruct (has (er s) j x) eqn:E; auto. exfalso. apply (R2 j Hj). apply (st_sub _ _ _ _ _ HS). exact E. }
       assert (HasT : has (er s) T x = true).
       { rewrite <- bound_er in Eb. rewrite Hstk in Eb. rewrite (bound_app _ (l_as lm ++ [T])), (bound_app _ (l_as lm)), bound_single in Eb.
         apply orb_true_iff in Eb as [Eb|Eb].
@@ -570,7 +570,7 @@ Proof.
       rewrite Hd1. exact Hdef. }
     apply UI_add_read.
     + apply (UI_same T BS I0 exp' s2); try reflexivity. cbn [deferred with_deferred]. intros d0 H0. apply in_app_iff. auto. exact U2.
-    + intros li ii Hr. right. destruct (Himp li ii Hr) as (R1 & R2 & R3). split. exact R1.
+    + intros li ii Hr. right. destruct (Himp li ii Hr) as (R1 & _ & R2 & R3). split. exact R1.
       exists a, stk', (lineno s2). split. cbn [deferred with_deferred]. apply in_app_iff. right. left. reflexivity.
       exists (l_as lm), (removelast (stack_of Lf ++ Ks) ++ [j]). split.
       * unfold stk'. rewrite Hstk. rewrite removelast_app.
@@ -578,7 +578,7 @@ Proof.
         intro E. apply HLf. apply app_eq_nil in E as [E _]. destruct Lf as [|k r0]; auto. exfalso. rewrite (stack_of_cons k r0) in E.
         apply app_eq_nil in E as [_ E]. apply app_eq_nil in E as [_ E]. discriminate.
       * intros i Hi. apply in_app_iff in Hi as [Hi|[<-|[]]].
-        -- apply removelast_In in Hi. rewrite Hext. apply R2. exact Hi. apply Hlt_post. exact Hi.
+        -- rewrite Hext. apply R2. exact Hi. apply Hlt_post. apply removelast_In in Hi. exact Hi.
         -- (* the copy: a closed scope that holds what the top scope held at the read *)
            intro Hx.
            assert (Hlt : j < next_id (er (with_deferred s2 (deferred s2 ++ [(x :: a, stk', lineno s2)])))).
@@ -618,16 +618,20 @@ Proof.
       apply in_app_iff. right. left. reflexivity. }
     apply (b_distinct l (l' :: L'') lm Hnd Hlm). symmetry. exact E. }
   assert (Himp : forall li ii, resolve x e = Bound (BImp li ii) ->
-            lookup_b x FB = Some (BImp li ii) /\ (forall i, In i (stack_of Lf) -> ~ In x (exp i)) /\ ~ In x (l_P lm)).
+            lookup_b x FB = Some (BImp li ii) /\ (forall j, In j (stack_of Lf) -> has (er s) j x = false) /\
+            (forall i, In i (removelast (stack_of Lf)) -> ~ In x (exp i)) /\ ~ In x (l_P lm)).
   { intros li ii Hr. rewrite (resolve_EnvI _ _ _ x HE) in Hr.
     destruct (resolve_imp L e _ Mb x li ii HE HEU Hr) as [R1 R2]. rewrite Hdyn in R1. fold FB in R1.
     assert (R2' : forall k, In k Lf -> ~ In x (l_P k ++ l_B k)).
     { intros k Hk. apply R2. rewrite HL. rewrite removelast_app by discriminate. cbn. rewrite app_nil_r. exact Hk. }
-    split. exact R1. split.
-    - apply (fn_noexp exp Lf lm x). rewrite <- HL. exact HC. exact R2'.
+    assert (Hno : forall i, In i (stack_of Lf) -> ~ In x (exp i)).
+    { apply (fn_noexp exp Lf lm x). rewrite <- HL. exact HC. exact R2'.
       apply (owns_fn Lf lm x). rewrite <- HL. apply (cx_own _ _ HC).
       intros k Hk Hx. apply (R2' k Hk). apply in_app_iff. auto.
-      intro Hx. apply (HOwn x Hx li ii). exact R1.
+      intro Hx. apply (HOwn x Hx li ii). exact R1. }
+    split. exact R1. split; [|split].
+    - intros j Hj. destruct (has (er s) j x) eqn:E; auto. exfalso. apply (Hno j Hj). apply (st_sub _ _ _ _ _ HS). exact E.
+    - intros i Hi. apply Hno. apply removelast_In in Hi. exact Hi.
     - intro Hx. apply HP in Hx. apply final_import_in in R1. destruct (HO x li ii R1) as [_ Hn].
       assert (lookup_b x (others I0) <> None) by (apply lookup_b_others; exact Hx). congruence. }
   pose proof (defer_u_gen T BS I0 exp l l' L'' accs acc ex s tr x a Mdyn Lf lm exp' [] (l_b l) (resolve x e) HS HX HC Hexlt HL HT HU) as G.
@@ -1879,6 +1883,179 @@ Proof.
     + exists exp2, Md2, Mb2. unfold vblock in *. cbn [fold_left]. rewrite map_app.
       rewrite <- (app_assoc acc), <- (app_assoc tr) in I2. rewrite <- (app_assoc done) in P2. unfold NS in I2. split. exact I2. exact P2.
 Qed.
+
+(* ================= stage 3: comprehensions, with tracking on ================= *)
+Lemma AllOther_comp_frame : forall T0, AllOther (comp_frame T0).
+Proof.
+  intro T0. unfold comp_frame. split; cbn [fdyn ffinal]; intros x b H. discriminate. eapply lookup_b_others_other; eauto.
+Qed.
+Lemma AllOther_bind_all_others : forall names k, AllOther k -> AllOther (bind_all (others names) k).
+Proof.
+  induction names as [|n names IH]; intros k H. exact H.
+  change (bind_all (others (n :: names)) k) with (bind_all (others names) (bind n BOther k)). apply IH. apply AllOther_bind. exact H.
+Qed.
+
+Lemma rc_imp : forall C ks e x li ii, CE C ks -> Forall AllOther ks -> e <> [] ->
+  resolve_outer x (ks ++ e) = Bound (BImp li ii) ->
+  (forall c, In c C -> ~ In x (cs_T c)) /\ resolve_outer x e = Bound (BImp li ii).
+Proof.
+  intros C ks e x li ii H HA He. induction H as [|c k C ks (Hk & Hl & Hd) HF IH]; intro Hr.
+  - split. intros c []. exact Hr.
+  - inversion HA as [|? ? Ak HA']; subst.
+    cbn [app] in Hr. destruct (ks ++ e) as [|f e'] eqn:E. { destruct ks; cbn in E; congruence. }
+    rewrite (resolve_outer_comp x k f e' Hk) in Hr.
+    destruct (mem x (flocals k)) eqn:Em.
+    + destruct (lookup_b x (fdyn k)) eqn:El; try discriminate. apply (proj1 Ak) in El. subst. discriminate.
+    + destruct (IH HA' Hr) as [A B]. split; [|exact B]. intros c0 [<-|Hc0]. intro Hx. apply Hl in Hx. congruence. apply A. exact Hc0.
+Qed.
+
+(* the comprehension scopes hold no x when PySem resolves x past all comprehension frames *)
+Lemma comp_has_false : forall exp s Cf C x, CF exp s Cf -> Shape Cf C -> (forall c, In c C -> ~ In x (cs_T c)) ->
+  forall j, In j (cids Cf) -> has s j x = false.
+Proof.
+  intros exp s Cf C x HF Hsh HC j Hj. unfold cids in Hj. apply in_rev in Hj. apply in_map_iff in Hj as (c & <- & Hc).
+  unfold CF in HF. rewrite Forall_forall in HF. destruct (HF c Hc) as (A1 & A2 & _).
+  destruct (has s (cs_id c) x) eqn:E; auto. exfalso. apply A1 in E.
+  destruct Hsh as [->|(c0 & -> & Hnil)].
+  - apply (HC c Hc). apply A2. exact E.
+  - destruct Hc as [<-|Hc]. rewrite Hnil in E. destruct E. apply (HC c Hc). apply A2. exact E.
+Qed.
+
+Definition CPost3 (exp : expmap) (l : lvl) (L' : list lvl) (acc : list name) (accs : list (list name)) (ex : list nat)
+                  (s : st) (e : env) (tr : list rd) (Lf : list lvl) (Mdyn : list (name * bsrc)) (Mb : frame)
+                  (s' : st) (rds : list rd) (Cf' : list cscope) : Prop :=
+  exists exp', ext (next_id s) exp exp' /\ Inv3 exp' l L' acc accs ex s' e (tr ++ rds) Lf Mdyn Mb /\
+               CX exp' ex (er s') Cf' /\ lineno s' = lineno s /\ next_id s <= next_id s'.
+
+Lemma CPost3_refl : forall exp l L' acc accs ex s e tr Lf Mdyn Mb Cf,
+  Inv3 exp l L' acc accs ex s e tr Lf Mdyn Mb -> CX exp ex (er s) Cf -> CPost3 exp l L' acc accs ex s e tr Lf Mdyn Mb s [] Cf.
+Proof. intros. exists exp. split. apply ext_refl. rewrite app_nil_r. auto. Qed.
+
+Lemma CPost3_seq : forall exp l L' acc accs ex s e tr Lf Mdyn Mb s1 r1 Cf1 s2 r2 Cf2,
+  CPost3 exp l L' acc accs ex s e tr Lf Mdyn Mb s1 r1 Cf1 ->
+  (forall exp1, Inv3 exp1 l L' acc accs ex s1 e (tr ++ r1) Lf Mdyn Mb -> CX exp1 ex (er s1) Cf1 ->
+                CPost3 exp1 l L' acc accs ex s1 e (tr ++ r1) Lf Mdyn Mb s2 r2 Cf2) ->
+  CPost3 exp l L' acc accs ex s e tr Lf Mdyn Mb s2 (r1 ++ r2) Cf2.
+Proof.
+  intros exp l L' acc accs ex s e tr Lf Mdyn Mb s1 r1 Cf1 s2 r2 Cf2 (exp1 & X1 & I1 & C1 & Ln1 & N1) H2.
+  destruct (H2 exp1 I1 C1) as (exp2 & X2 & I2 & C2 & Ln2 & N2).
+  exists exp2. split. eapply ext_trans; [exact N1|exact X1|exact X2].
+  rewrite app_assoc. split. exact I2. split. exact C2. split. congruence. lia.
+Qed.
+
+Lemma cload_u3 : forall exp l L' acc accs ex s e tr Lf Mdyn Mb Cf C ks x a,
+  Inv3 exp l L' acc accs ex s e tr Lf Mdyn Mb -> CX exp ex (er s) Cf -> CE C ks -> Shape Cf C -> Cf <> [] -> Forall AllOther ks ->
+  CPost3 exp l L' acc accs ex s e tr Lf Mdyn Mb (load s (stack_of (l :: L') ++ cids Cf) (x :: a))
+         [(lineno s, x, resolve x (ks ++ e))] Cf.
+Proof.
+  intros exp l L' acc accs ex s e tr Lf Mdyn Mb Cf C ks x a H3 HX0 HCE Hsh Hne HAll.
+  pose proof H3 as [HI HL HU HEU Hfin Hdyn Hown]. pose proof HX0 as [HF Hin Hnd Hdel].
+  assert (He : e <> []) by (eapply Inv2_nonempty; eauto).
+  pose proof (st_sinv _ _ _ _ _ (i_st _ _ _ _ _ _ _ _ _ HI)) as HSe.
+  pose proof (i_env _ _ _ _ _ _ _ _ _ HI) as HE0.
+  rewrite (resolve_comp_outer C ks _ e _ x HCE HE0).
+  assert (Hroot : forall j, has (er s) j x = false -> rootclosed (scope_dict s j) /\ dict_get (scope_dict s j) [x] = None).
+  { intros j Hj. split. apply rootclosed_er. apply (sv_root _ HSe). apply dict_get_none_er. exact Hj. }
+  destruct Lf as [|k Lf'].
+  - (* module level *)
+    cbn in HL. injection HL as -> ->. cbn [is_nil] in Hdyn.
+    destruct HI as [HS HX HLt HC HE HT].
+    assert (accs = []). { pose proof (st_top _ _ _ _ _ HS) as Ht. inversion Ht as [|? ? ? ? _ Ht']; subst. inversion Ht'. reflexivity. }
+    subst accs.
+    assert (Hdec : exists pre, Cf = pre ++ C /\ Forall (fun c => cs_acc c = []) pre).
+    { destruct Hsh as [->|(c0 & -> & Hnil)]. exists []. split; auto. exists [c0]. split; auto. }
+    destruct Hdec as (pre & Ecf & Hpre).
+    destruct e as [|f [|? ?]]; try contradiction. cbn in HEU. subst f.
+    pose proof (cload_imm exp lm acc ex (er s) [Mb] tr x a pre C ks HS HX HC HE HT) as G. rewrite <- Ecf in G.
+    destruct (G HF Hpre HCE) as (S1 & T1 & F1 & Ln1 & N1 & Fd1). clear G.
+    cbv zeta in S1, T1, F1, Ln1, N1, Fd1. rewrite <- er_load in S1, T1, F1, Ln1, N1, Fd1.
+    rewrite (resolve_comp_outer C ks _ [Mb] _ x HCE HE) in T1.
+    exists exp. split. apply ext_refl. split; [|split; [|split; [exact Ln1|cbn [next_id er] in N1; lia]]].
+    + constructor; auto.
+      * constructor; auto. intros i Hi. rewrite N1. auto.
+      * apply imm_u_gen; auto. apply (Inv2_fd _ _ _ _ _ _ _ _ _ (v_f _ _ _ _ _ _ _ _ _ _ _ _ H3)).
+        intros li ii Hr. destruct (rc_imp C ks [Mb] x li ii HCE HAll He Hr) as [R1 R2].
+        split. cbn in R2. rewrite Hdyn in R2. destruct (lookup_b x Mdyn); congruence.
+        intros j Hj. apply Hroot. eapply comp_has_false; eauto.
+      * reflexivity.
+    + constructor; auto.
+  - (* inside a function or lambda body *)
+    cbn in HL. injection HL as <- HL'. destruct L' as [|l' L'']. destruct Lf'; discriminate.
+    assert (HL : l :: l' :: L'' = (l :: Lf') ++ [lm]) by (cbn; rewrite HL'; reflexivity).
+    cbn [is_nil] in Hdyn.
+    destruct Cf as [|c0 C0]. congruence.
+    assert (Hsh' : C = c0 :: C0 \/ (C = C0 /\ cs_acc c0 = [])).
+    { destruct Hsh as [->|(c1 & E & Hnil)]. left; reflexivity. injection E as <- <-. right. auto. }
+    assert (HrestC : forall c, In c C0 -> In c C). { intros c Hc. destruct Hsh' as [->|[-> _]]. right; exact Hc. exact Hc. }
+    destruct HI as [HS HX Hexlt HC HE HT].
+    set (stkx := stack_of (l :: l' :: L'') ++ cids (c0 :: C0)).
+    assert (Htop : top stkx = cs_id c0). { unfold stkx. rewrite cids_cons, app_assoc. apply top_snoc. }
+    assert (HtpT : cs_id c0 <> T).
+    { intro E. apply (ex_off _ _ HX (cs_id c0) (Hin c0 (or_introl eq_refl))). rewrite E, HL, stack_of_snoc.
+      apply in_app_iff. left. apply in_app_iff. right. left. reflexivity. }
+    assert (Htpin : In (cs_id c0) stkx). { unfold stkx. rewrite cids_cons, app_assoc. apply in_app_iff. right. left. reflexivity. }
+    (* what an import verdict implies, for any state with the same scopes and expectations *)
+    assert (Himp : forall exp0 s0, CF exp0 (er s0) (c0 :: C0) -> CtxI exp0 (l :: l' :: L'') -> StI exp0 (l :: l' :: L'') (acc :: accs) ex (er s0) ->
+              forall li ii, resolve_outer x (ks ++ e) = Bound (BImp li ii) ->
+              lookup_b x (rev BS ++ others I0) = Some (BImp li ii) /\
+              (forall j, In j (stack_of (l :: Lf') ++ cids (c0 :: C0)) -> has (er s0) j x = false) /\
+              (forall i, In i (removelast (stack_of (l :: Lf') ++ cids (c0 :: C0))) -> ~ In x (exp0 i)) /\ ~ In x (l_P lm)).
+    { intros exp0 s0 HF0 HC0 HS0 li ii Hr.
+      destruct (rc_imp C ks e x li ii HCE HAll He Hr) as [R1 R2].
+      destruct (resolve_imp (l :: l' :: L'') e _ Mb x li ii HE HEU R2) as [Q1 Q2]. rewrite Hdyn in Q1.
+      assert (Q2' : forall k, In k (l :: Lf') -> ~ In x (l_P k ++ l_B k)).
+      { intros k Hk. apply Q2. rewrite HL. rewrite removelast_app by discriminate. cbn [removelast]. rewrite app_nil_r. exact Hk. }
+      assert (Hno : forall i, In i (stack_of (l :: Lf')) -> ~ In x (exp0 i)).
+      { apply (fn_noexp exp0 (l :: Lf') lm x). rewrite <- HL. exact HC0. exact Q2'.
+        apply (owns_fn (l :: Lf') lm x). rewrite <- HL. apply (cx_own _ _ HC0).
+        intros k Hk Hx. apply (Q2' k Hk). apply in_app_iff. auto.
+        intro Hx. apply (Hown x Hx li ii). exact Q1. }
+      split. exact Q1. split; [|split].
+      - intros j Hj. apply in_app_iff in Hj as [Hj|Hj].
+        + destruct (has (er s0) j x) eqn:E; auto. exfalso. apply (Hno j Hj). apply (st_sub _ _ _ _ _ HS0). exact E.
+        + apply (comp_has_false exp0 (er s0) (c0 :: C0) C x HF0 Hsh R1). exact Hj.
+      - intros i Hi. rewrite cids_cons, app_assoc, removelast_snoc in Hi. apply in_app_iff in Hi as [Hi|Hi]. apply Hno. exact Hi.
+        unfold cids in Hi. apply in_rev in Hi. apply in_map_iff in Hi as (c & <- & Hc).
+        unfold CF in HF0. rewrite Forall_forall in HF0. destruct (HF0 c (or_intror Hc)) as (_ & _ & A3 & _).
+        intro Hx. apply A3 in Hx. apply (R1 c (HrestC c Hc)). exact Hx.
+      - intro Hx. apply HP in Hx. apply final_import_in in Q1. destruct (HO x li ii Q1) as [_ Hn].
+        assert (lookup_b x (others I0) <> None) by (apply lookup_b_others; exact Hx). congruence. }
+    unfold load. change (in_fd s) with (in_fd (er s)). rewrite (st_fd _ _ _ _ _ HS). cbn [length Nat.eqb negb].
+    destruct (cdefer_step exp l l' L'' accs acc ex (er s) e tr x a c0 C0 C ks HS HX HC HE HT HF HCE Hsh')
+      as (exp1 & X1 & S1 & C1 & T1 & F1 & Ln1 & N1 & Fd1).
+    cbv zeta in S1, T1, F1, Ln1, N1, Fd1. rewrite <- er_defer_load in S1, T1, F1, Ln1, N1.
+    rewrite (resolve_comp_outer C ks _ e _ x HCE HE) in T1.
+    fold stkx in S1, T1, F1, Ln1, N1 |- *.
+    set (s1 := defer_load s stkx (x :: a)) in *.
+    assert (HKlt : forall s0, next_id s <= next_id s0 -> forall j, In j (cids (c0 :: C0)) -> j < next_id s0).
+    { intros s0 Hs0 j Hj. unfold cids in Hj. apply in_rev in Hj. apply in_map_iff in Hj as (c & <- & Hc).
+      unfold CF in HF. rewrite Forall_forall in HF. destruct (HF c Hc) as (_ & _ & _ & A4). cbn [next_id er] in A4. lia. }
+    assert (U1 : UI T BS I0 exp1 s1 Mdyn (tr ++ [(lineno s, x, resolve_outer x (ks ++ e))])).
+    { apply (defer_u_gen T BS I0 exp l l' L'' accs acc ex s tr x a Mdyn (l :: Lf') lm exp1 (cids (c0 :: C0)) (cs_id c0)); auto.
+      all: try (intros j Hj; apply (HKlt s); [lia|exact Hj]).
+      all: try (apply (Himp exp s HF HC HS)). }
+    destruct (cdefer_step exp1 l l' L'' accs acc ex (er s1) e _ x a c0 C0 C ks S1 HX C1 HE T1 F1 HCE Hsh')
+      as (exp2 & X2 & S2 & C2 & T2 & F2 & Ln2 & N2 & Fd2).
+    cbv zeta in S2, T2, F2, Ln2, N2, Fd2. rewrite <- er_defer_load in S2, T2, F2, Ln2, N2.
+    rewrite (resolve_comp_outer C ks _ e _ x HCE HE) in T2.
+    fold stkx in S2, T2, F2, Ln2, N2.
+    set (s2 := defer_load s1 stkx (x :: a)) in *.
+    cbn [next_id er lineno] in N1, N2, Ln1, Ln2, T2.
+    assert (U2 : UI T BS I0 exp2 s2 Mdyn ((tr ++ [(lineno s, x, resolve_outer x (ks ++ e))]) ++ [(lineno s1, x, resolve_outer x (ks ++ e))])).
+    { apply (defer_u_gen T BS I0 exp1 l l' L'' accs acc ex s1 _ x a Mdyn (l :: Lf') lm exp2 (cids (c0 :: C0)) (cs_id c0)); auto.
+      all: try (intros i Hi; specialize (Hexlt i Hi); cbn [next_id er] in Hexlt; lia).
+      all: try (intros j Hj; apply (HKlt s1); [exact N1|exact Hj]).
+      all: try (apply (Himp exp1 s1 F1 C1 S1)). }
+    exists exp2. split. { eapply ext_trans; [|exact X1|exact X2]. exact N1. }
+    split; [|split; [|split; [congruence|lia]]].
+    + constructor; auto.
+      * constructor; auto.
+        -- intros i Hi. specialize (Hexlt i Hi). cbn [next_id er] in *. lia.
+        -- eapply TrI_perm; [|exact T2]. intro r. rewrite Ln1, !in_app_iff. cbn. tauto.
+      * eapply UI_perm; [|exact U2]. intro r. rewrite Ln1, !in_app_iff. cbn. tauto.
+    + constructor; auto.
+Qed.
+
 
 End U2.
 
